@@ -80,12 +80,14 @@ func buildOverlay(scratch string) (string, int) {
 		repl[dst] = p
 		return nil
 	})
+	nAccessors := len(repl)
+	addYields(scratch, repl)
 	b, _ := json.Marshal(map[string]any{"Replace": repl})
 	path := filepath.Join(scratch, "overlay.json")
 	if err := os.WriteFile(path, b, 0644); err != nil {
 		die2("write overlay: %v", err)
 	}
-	return path, len(repl)
+	return path, nAccessors
 }
 
 var buildMu sync.Mutex
